@@ -59,6 +59,10 @@ func dpAlphabet() []dpBehav {
 		B("delta-number-equal", nil, true, func(d *crlSpec) { d.Number = 5 }),
 		B("delta-number-lower", nil, true, func(d *crlSpec) { d.Number = 4 }),
 		B("delta-ind-base-1", nil, true, func(d *crlSpec) { d.Indicator = "4" }),
+		B("delta-number-equal-ind-lower", nil, true, func(d *crlSpec) { d.Number = 5; d.Indicator = "4" }),
+		B("delta-number-lower-ind-lower", nil, true, func(d *crlSpec) { d.Number = 4; d.Indicator = "2" }),
+		B("delta-number-base+1-ind-0", nil, true, func(d *crlSpec) { d.Number = 6; d.Indicator = "0" }),
+		B("delta-number-huge", nil, true, func(d *crlSpec) { d.Number = 1 << 40; d.Indicator = "5" }),
 		B("delta-ind-base+1", nil, true, func(d *crlSpec) { d.Indicator = "6" }),
 		B("delta-ind-unparsable", nil, true, func(d *crlSpec) { d.Indicator = "bad" }),
 		B("delta-no-indicator", nil, true, func(d *crlSpec) { d.Indicator = "" }),
